@@ -7,10 +7,11 @@ import GoDebian.Drv.Dependency
 import GoDebian.Drv.Deb822
 import GoDebian.Drv.Codec
 import GoDebian.Drv.Deb
+import GoDebian.Drv.Changelog
 
 open GoDebian GoDebian.Drv
 
-def handlers : List Handler := [versionHandler, dependencyHandler, deb822Handler, codecHandler, debHandler]
+def handlers : List Handler := [versionHandler, dependencyHandler, deb822Handler, codecHandler, debHandler, changelogHandler]
 
 def dispatch (line : String) : String :=
   match (line.splitOn " ").filter (· ≠ "") with
